@@ -170,3 +170,351 @@ Proof.
     + unfold position_is_expired in He2. destruct (pos_exp p) as [e|]; [|discriminate]. exists e. split; [reflexivity | lia].
     + reflexivity.
 Qed.
+
+(* ---------- claim touches neither positions nor configuration; farms keep everything but their claimed amount ---------- *)
+Definition farm_same_but_claimed (f f' : farm) : Prop :=
+  f_id f' = f_id f /\ f_owner f' = f_owner f /\ f_lp f' = f_lp f /\ f_asset f' = f_asset f /\
+  f_rate f' = f_rate f /\ f_start f' = f_start f /\ f_end f' = f_end f /\ f_claimed f <= f_claimed f' <= amount_of (f_asset f).
+
+Lemma claim_tables w sender funds until s' msgs :
+  claim w sender funds until = Ok (s', msgs) ->
+  funds = [] /\ fm_positions s' = fm_positions (w_fm w) /\ fm_cfg s' = fm_cfg (w_fm w) /\ fm_own s' = fm_own (w_fm w) /\
+  fm_pos_counter s' = fm_pos_counter (w_fm w) /\ fm_farm_counter s' = fm_farm_counter (w_fm w).
+Proof.
+  unfold claim. intros H.
+  apply bind_ok in H. destruct H as [[] [Hn H]]. unfold nonpayable in Hn. destruct funds; [|discriminate].
+  split; [reflexivity|].
+  apply bind_ok in H. destruct H as [[] [_ H]].
+  apply bind_ok in H. destruct H as [ep [_ H]].
+  apply bind_ok in H. destruct H as [un [_ H]].
+  apply bind_ok in H. destruct H as [[s1 total] [Hf H]].
+  apply bind_ok in H. destruct H as [ms [_ H]]. inversion H; subst s' msgs; clear H.
+  cbn [fm_set_last_claimed fm_with fm_positions fm_cfg fm_own fm_pos_counter fm_farm_counter].
+  set (P := fun acc : fm_state * list coin =>
+              fm_positions (fst acc) = fm_positions (w_fm w) /\ fm_cfg (fst acc) = fm_cfg (w_fm w) /\
+              fm_own (fst acc) = fm_own (w_fm w) /\ fm_pos_counter (fst acc) = fm_pos_counter (w_fm w) /\
+              fm_farm_counter (fst acc) = fm_farm_counter (w_fm w)).
+  assert (HP : P (s1, total)).
+  { eapply (foldM_inv P); [| |exact Hf].
+    - intros acc lp acc' _ Hstep HPacc. unfold P in *.
+      apply bind_ok in Hstep. destruct Hstep as [[rewards modified] [_ Hstep]].
+      apply bind_ok in Hstep. destruct Hstep as [farms' [_ Hstep]].
+      apply bind_ok in Hstep. destruct Hstep as [s2 [Hs2 Hstep]]. inversion Hstep; subst acc'; clear Hstep.
+      apply sync_tables in Hs2. destruct Hs2 as [(T1 & T2 & T3 & T4 & T5 & T6) _].
+      cbn [fst fm_set_farms fm_with fm_positions fm_cfg fm_own fm_pos_counter fm_farm_counter] in *.
+      destruct HPacc as (A1 & A2 & A3 & A4 & A5). repeat split; congruence.
+    - unfold P. cbn. repeat split. }
+  exact HP.
+Qed.
+
+(* ---------- create / expand / close position ---------- *)
+Lemma create_position_spec w sender funds oid dur receiver s' msgs :
+  create_position w sender funds oid dur receiver = Ok (s', msgs) ->
+  msgs = [] /\
+  exists lp recv identifier,
+    one_coin funds = Ok lp /\
+    fm_min_unlock (fm_cfg (w_fm w)) <= dur <= fm_max_unlock (fm_cfg (w_fm w)) /\
+    recv = match receiver with Some r => r | None => sender end /\
+    (match receiver with Some r => sender = fm_pool_manager (fm_cfg (w_fm w)) \/ sender = r | None => True end) /\
+    identifier = match oid with Some id => ("u-" ++ id)%string | None => ("p-" ++ string_of_Z (fm_pos_counter (w_fm w) + 1))%string end /\
+    sfind pos_id identifier (fm_positions (w_fm w)) = None /\
+    fm_positions s' = sinsert pos_id {| pos_id := identifier; pos_lp := lp; pos_dur := dur; pos_open := true; pos_exp := None; pos_recv := recv |}
+                              (fm_positions (w_fm w)) /\
+    fm_farms s' = fm_farms (w_fm w) /\ fm_cfg s' = fm_cfg (w_fm w) /\ fm_own s' = fm_own (w_fm w).
+Proof.
+  unfold create_position. intros H.
+  apply bind_ok in H. destruct H as [lp [Hlp H]].
+  apply bind_ok in H. destruct H as [[] [_ H]].
+  apply bind_ok in H. destruct H as [[] [Hd H]]. apply ensure_ok in Hd.
+  apply bind_ok in H. destruct H as [recv [Hr H]].
+  apply bind_ok in H. destruct H as [c [Hc H]].
+  destruct (in_range U64_MAX (fm_pos_counter (w_fm w) + 1)); [|discriminate]. inversion Hc; subst c; clear Hc.
+  destruct (match oid with Some id => _ | None => _ end) as [identifier s1] eqn:Eid.
+  apply bind_ok in H. destruct H as [[] [_ H]].
+  apply bind_ok in H. destruct H as [[] [Hfresh H]]. apply ensure_ok in Hfresh.
+  apply bind_ok in H. destruct H as [[] [_ H]].
+  apply bind_ok in H. destruct H as [s3 [Hs3 H]]. inversion H; subst s' msgs; clear H.
+  split; [reflexivity|]. exists lp, recv, identifier.
+  apply update_weights_tables in Hs3. destruct Hs3 as [(T1 & T2 & T3 & T4 & T5 & T6) _].
+  cbn [fm_set_positions fm_with fm_positions fm_farms fm_cfg fm_own] in *.
+  assert (Hs1 : fm_positions s1 = fm_positions (w_fm w) /\ fm_farms s1 = fm_farms (w_fm w) /\ fm_cfg s1 = fm_cfg (w_fm w) /\ fm_own s1 = fm_own (w_fm w) /\
+                identifier = match oid with Some id => ("u-" ++ id)%string | None => ("p-" ++ string_of_Z (fm_pos_counter (w_fm w) + 1))%string end).
+  { destruct oid; inversion Eid; subst; repeat split. }
+  destruct Hs1 as (S1 & S2 & S3 & S4 & S5).
+  split; [exact Hlp|]. split; [lia|]. split.
+  { destruct receiver as [r|]; [|inversion Hr; reflexivity]. inv_all. reflexivity. }
+  split.
+  { destruct receiver as [r|]; [|exact I].
+    apply bind_ok in Hr. destruct Hr as [[] [_ Hr]]. apply bind_ok in Hr. destruct Hr as [[] [Ho _]].
+    apply ensure_ok in Ho. apply orb_true_iff in Ho. destruct Ho as [E|E]; apply String.eqb_eq in E; auto. }
+  split; [exact S5|]. split.
+  { rewrite <- S1. destruct (sfind pos_id identifier (fm_positions s1)); [discriminate | reflexivity]. }
+  rewrite T3, T5, T1, T2, S1, S2, S3, S4. repeat split.
+Qed.
+
+Lemma expand_position_spec w sender funds id s' msgs :
+  expand_position w sender funds id = Ok (s', msgs) ->
+  msgs = [] /\
+  exists p lp,
+    sfind pos_id id (fm_positions (w_fm w)) = Some p /\ one_coin funds = Ok lp /\
+    denom_of lp = denom_of (pos_lp p) /\ pos_open p = true /\
+    (pos_recv p = sender \/ sender = fm_pool_manager (fm_cfg (w_fm w))) /\
+    fm_positions s' = sinsert pos_id (pos_with p (amount_of (pos_lp p) + amount_of lp) (pos_open p) (pos_exp p)) (fm_positions (w_fm w)) /\
+    fm_farms s' = fm_farms (w_fm w) /\ fm_cfg s' = fm_cfg (w_fm w) /\ fm_own s' = fm_own (w_fm w) /\
+    fm_pos_counter s' = fm_pos_counter (w_fm w).
+Proof.
+  unfold expand_position. intros H.
+  apply bind_ok in H. destruct H as [p [Hp H]]. apply of_option_ok in Hp.
+  apply bind_ok in H. destruct H as [lp [Hlp H]].
+  apply bind_ok in H. destruct H as [[] [_ H]].
+  apply bind_ok in H. destruct H as [[] [Hd H]]. apply ensure_ok in Hd. apply String.eqb_eq in Hd.
+  apply bind_ok in H. destruct H as [[] [Hopen H]]. apply ensure_ok in Hopen.
+  apply bind_ok in H. destruct H as [[] [Ho H]]. apply ensure_ok in Ho.
+  apply bind_ok in H. destruct H as [a [Ha H]]. unfold cadd in Ha. apply chk_ok in Ha. destruct Ha as [-> _].
+  apply bind_ok in H. destruct H as [s2 [Hs2 H]]. inversion H; subst s' msgs; clear H.
+  split; [reflexivity|]. exists p, lp.
+  apply update_weights_tables in Hs2. destruct Hs2 as [(T1 & T2 & T3 & T4 & T5 & T6) _].
+  cbn [fm_set_positions fm_with fm_positions fm_farms fm_cfg fm_own fm_pos_counter] in *.
+  rewrite T3, T5, T1, T2, T4. repeat split; auto.
+  apply orb_true_iff in Ho. destruct Ho as [E|E]; apply String.eqb_eq in E; auto.
+Qed.
+
+Lemma close_position_spec w sender funds id olp s' msgs :
+  close_position w sender funds id olp = Ok (s', msgs) ->
+  funds = [] /\ msgs = [] /\ query_rewards w (w_fm w) sender None = Ok [] /\
+  exists p, sfind pos_id id (fm_positions (w_fm w)) = Some p /\ pos_recv p = sender /\ pos_open p = true /\
+    fm_farms s' = fm_farms (w_fm w) /\ fm_cfg s' = fm_cfg (w_fm w) /\ fm_own s' = fm_own (w_fm w) /\
+    let amount := amount_of (pos_lp p) in
+    let exp := (time (w_block w) + pos_dur p * NANOS) / NANOS in
+    ((* closed in full: the position keeps its identifier, owner, amount and duration, and starts unlocking *)
+     ((olp = None \/ exists c, olp = Some c /\ denom_of c = denom_of (pos_lp p) /\ amount_of c = amount) /\
+      fm_positions s' = sinsert pos_id (pos_with p amount false (Some exp)) (fm_positions (w_fm w)) /\
+      fm_pos_counter s' = fm_pos_counter (w_fm w))
+     \/
+     (* closed in part: a new closed position of [a] is split off, the remainder stays open; old' + new = old *)
+     (exists c, olp = Some c /\ denom_of c = denom_of (pos_lp p) /\ amount_of c < amount /\
+        let np := {| pos_id := ("p-" ++ string_of_Z (fm_pos_counter (w_fm w) + 1))%string; pos_lp := c; pos_dur := pos_dur p;
+                     pos_open := false; pos_exp := Some exp; pos_recv := pos_recv p |} in
+        fm_positions s' = sinsert pos_id (pos_with p (ssub amount (amount_of c)) true (pos_exp p))
+                            (sinsert pos_id np (fm_positions (w_fm w))) /\
+        fm_pos_counter s' = fm_pos_counter (w_fm w) + 1)).
+Proof.
+  unfold close_position. intros H.
+  apply bind_ok in H. destruct H as [[] [Hn H]]. unfold nonpayable in Hn. destruct funds; [|discriminate].
+  apply bind_ok in H. destruct H as [pending [Hq H]].
+  apply bind_ok in H. destruct H as [[] [Hpe H]]. apply ensure_ok in Hpe.
+  assert (pending = []) as -> by (destruct pending; [reflexivity | discriminate]).
+  apply bind_ok in H. destruct H as [p [Hp H]]. apply of_option_ok in Hp.
+  apply bind_ok in H. destruct H as [[] [Ho H]]. apply ensure_ok in Ho. apply String.eqb_eq in Ho.
+  apply bind_ok in H. destruct H as [[] [Hopen H]]. apply ensure_ok in Hopen.
+  apply bind_ok in H. destruct H as [exp_ns [Hexp H]].
+  apply bind_ok in H. destruct H as [[] [_ H]].
+  apply bind_ok in H. destruct H as [[[p' s1] tc] [Hb H]].
+  apply bind_ok in H. destruct H as [s2 [Hs2 H]].
+  apply bind_ok in H. destruct H as [s4 [Hs4 H]]. inversion H; subst s' msgs; clear H.
+  split; [reflexivity|]. split; [reflexivity|]. split; [exact Hq|].
+  exists p. split; [exact Hp|]. split; [exact Ho|]. split; [exact Hopen|].
+  apply update_weights_tables in Hs2. destruct Hs2 as [(T1 & T2 & T3 & T4 & T5 & T6) _].
+  apply reconcile_tables in Hs4. destruct Hs4 as (U1 & U2 & U3 & U4 & U5 & U6).
+  cbn [fm_set_positions fm_with fm_positions fm_farms fm_cfg fm_own fm_pos_counter] in *.
+  assert (Hexp' : exp_ns = time (w_block w) + pos_dur p * NANOS).
+  { unfold ts_plus_seconds in Hexp. destruct (_ && _); inversion Hexp; reflexivity. }
+  subst exp_ns.
+  destruct olp as [c|].
+  - apply bind_ok in Hb. destruct Hb as [[] [Hd Hb]]. apply ensure_ok in Hd. apply String.eqb_eq in Hd.
+    destruct (amount_of c =? amount_of (pos_lp p)) eqn:E1.
+    + inversion Hb; subst p' s1 tc; clear Hb.
+      rewrite U5, T5, U1, T1, U2, T2. repeat split; try reflexivity. cbv zeta. left.
+      rewrite U3, T3, U4, T4. repeat split. right. exists c. repeat split; auto; lia.
+    + destruct (amount_of c <? amount_of (pos_lp p)) eqn:E2; [|discriminate].
+      apply bind_ok in Hb. destruct Hb as [cn [Hcn Hb]].
+      destruct (in_range U64_MAX (fm_pos_counter (w_fm w) + 1)); [|discriminate]. inversion Hcn; subst cn; clear Hcn.
+      inversion Hb; subst p' s1 tc; clear Hb.
+      cbn [fm_set_positions fm_set_pos_counter fm_with fm_positions fm_farms fm_cfg fm_own fm_pos_counter] in *.
+      rewrite U5, T5, U1, T1, U2, T2. repeat split; try reflexivity. cbv zeta. right.
+      exists c. rewrite U3, T3, U4, T4. repeat split; auto; lia.
+  - inversion Hb; subst p' s1 tc; clear Hb.
+    rewrite U5, T5, U1, T1, U2, T2. repeat split; try reflexivity. cbv zeta. left.
+    rewrite U3, T3, U4, T4. repeat split. left. reflexivity.
+Qed.
+
+(* unlock instant = close time + unlocking duration (whole seconds) *)
+Lemma expiry_is_close_plus_duration t dur : (t + dur * NANOS) / NANOS = t / NANOS + dur.
+Proof. unfold NANOS. apply Z.div_add. lia. Qed.
+
+(* close_farms only removes farms *)
+Lemma close_farms_tables fs : forall s acc,
+  let r := fold_left (fun acc f =>
+               let s0 := fst acc in
+               let rem := ssub (amount_of (f_asset f)) (f_claimed f) in
+               (fm_set_farms s0 (sremove f_id (f_id f) (fm_farms s0)),
+                if 0 <? rem then
+                  (snd acc ++ [{| sm_msg := MBankSend (f_owner f) [(denom_of (f_asset f), rem)];
+                                  sm_id := CLOSE_FARMS_ERR_REPLY_CODE; sm_reply := RError |}])%list
+                else snd acc)) fs (s, acc) in
+  fm_positions (fst r) = fm_positions s /\ fm_cfg (fst r) = fm_cfg s /\ fm_own (fst r) = fm_own s /\
+  fm_pos_counter (fst r) = fm_pos_counter s /\ fm_farm_counter (fst r) = fm_farm_counter s /\
+  fm_weights (fst r) = fm_weights s /\ fm_last_claimed (fst r) = fm_last_claimed s /\
+  (forall x, In x (fm_farms (fst r)) -> In x (fm_farms s)).
+Proof.
+  induction fs as [|f r0 IH]; intros s acc; cbn [fold_left].
+  - cbn. repeat split; auto.
+  - cbv zeta in IH. specialize (IH (fm_set_farms s (sremove f_id (f_id f) (fm_farms s)))
+       (if 0 <? ssub (amount_of (f_asset f)) (f_claimed f)
+        then (acc ++ [{| sm_msg := MBankSend (f_owner f) [(denom_of (f_asset f), ssub (amount_of (f_asset f)) (f_claimed f))];
+                        sm_id := CLOSE_FARMS_ERR_REPLY_CODE; sm_reply := RError |}])%list else acc)).
+    cbn [fst snd]. destruct IH as (A1 & A2 & A3 & A4 & A5 & A6 & A7 & A8).
+    cbn [fm_set_farms fm_with fm_positions fm_cfg fm_own fm_pos_counter fm_farm_counter fm_weights fm_last_claimed fm_farms] in *.
+    repeat split; auto. intros x Hx. apply A8 in Hx. eapply sremove_in; eauto.
+Qed.
+
+Lemma close_farms_positions s fs : fm_positions (fst (close_farms s fs)) = fm_positions s.
+Proof. unfold close_farms. apply (close_farms_tables fs s []). Qed.
+
+(* ---------- identifiers: generated "p-<n>" identifiers above the counter are unused ---------- *)
+Definition pos_fresh (s : fm_state) : Prop :=
+  0 <= fm_pos_counter s /\
+  forall k, fm_pos_counter s < k -> sfind pos_id ("p-" ++ string_of_Z k)%string (fm_positions s) = None.
+
+Lemma p_id_inj a b : 0 <= a -> 0 <= b -> ("p-" ++ string_of_Z a = "p-" ++ string_of_Z b)%string -> a = b.
+Proof. intros Ha Hb H. cbn in H. inversion H. apply string_of_Z_inj; assumption. Qed.
+Lemma u_p_disjoint x k : ("u-" ++ x)%string <> ("p-" ++ string_of_Z k)%string.
+Proof. cbn. intros H. inversion H. Qed.
+
+(* ---------- C08 frame: nobody but the owner (or the pool manager, which may only add) changes a position ---------- *)
+Lemma fm_execute_positions_frame w sender funds m s' msgs :
+  pos_fresh (w_fm w) ->
+  fm_execute w sender funds m = Ok (s', msgs) ->
+  forall id q, sfind pos_id id (fm_positions (w_fm w)) = Some q ->
+    pos_recv q <> sender -> sender <> fm_pool_manager (fm_cfg (w_fm w)) ->
+    sfind pos_id id (fm_positions s') = Some q.
+Proof.
+  intros [Hc0 Hfresh] H id q Hq Hne Hpm.
+  destruct m as [p|p|fid|a|u|oid dur r|pid|pid lp|pid e|u]; cbn [fm_execute] in H.
+  - unfold create_farm in H.
+    apply bind_ok in H. destruct H as [[] [_ H]].
+    apply bind_ok in H. destruct H as [ep [_ H]].
+    apply bind_ok in H. destruct H as [[expired live] [_ H]].
+    pose proof (close_farms_positions (w_fm w) expired) as Hcf.
+    destruct (close_farms (w_fm w) expired) as [s1 submsgs]. cbn [fst] in Hcf.
+    inv_all; cbn [fm_set_farms fm_set_farm_counter fm_with fm_positions]; rewrite Hcf; exact Hq.
+  - unfold expand_farm in H. inv_all. exact Hq.
+  - unfold close_farm in H.
+    apply bind_ok in H. destruct H as [[] [_ H]].
+    apply bind_ok in H. destruct H as [f [_ H]].
+    apply bind_ok in H. destruct H as [[] [_ H]]. inversion H; subst. cbn. exact Hq.
+  - inv_all. exact Hq.
+  - apply claim_tables in H. destruct H as (_ & Hp & _). rewrite Hp. exact Hq.
+  - apply create_position_spec in H. destruct H as (_ & lp & recv & identifier & _ & _ & _ & _ & _ & Hfr & Hpos & _).
+    rewrite Hpos. rewrite sfind_sinsert_other; [exact Hq|]. cbn. intros C. subst. congruence.
+  - apply expand_position_spec in H. destruct H as (_ & p & lp & Hp & _ & _ & _ & Hauth & Hpos & _).
+    rewrite Hpos. rewrite sfind_sinsert_other; [exact Hq|]. cbn.
+    intros C. subst id. rewrite (sfind_key _ _ _ _ Hp) in Hq. rewrite Hp in Hq. inversion Hq; subst q.
+    destruct Hauth; congruence.
+  - apply close_position_spec in H. destruct H as (_ & _ & _ & p & Hp & Ho & _ & _ & _ & _ & Hc).
+    cbv zeta in Hc.
+    assert (Hidne : id <> pos_id p).
+    { intros C. subst id. rewrite (sfind_key _ _ _ _ Hp) in Hq. rewrite Hp in Hq. inversion Hq; subst q. congruence. }
+    destruct Hc as [(_ & Hpos & _) | (c & _ & _ & _ & Hpos & _)]; rewrite Hpos.
+    + rewrite sfind_sinsert_other; [exact Hq | cbn; exact Hidne].
+    + rewrite sfind_sinsert_other by (cbn; exact Hidne).
+      rewrite sfind_sinsert_other; [exact Hq|]. cbn [pos_id].
+      intros C. subst id. rewrite Hfresh in Hq by lia. discriminate.
+  - apply withdraw_position_spec in H. destruct H as (_ & p & Hp & Ho & Hpos & _).
+    rewrite Hpos. rewrite sfind_sremove_other; [exact Hq|].
+    intros C. subst id. rewrite Hp in Hq. inversion Hq; subst q. congruence.
+  - apply bind_ok in H. destruct H as [[] [_ H]]. unfold fm_update_config in H. inv_all; exact Hq.
+Qed.
+
+(* the freshness invariant is preserved by every farm-manager message *)
+Lemma fm_execute_pos_fresh w sender funds m s' msgs :
+  pos_fresh (w_fm w) -> fm_execute w sender funds m = Ok (s', msgs) -> pos_fresh s'.
+Proof.
+  intros [Hc0 Hfresh] H.
+  destruct m as [p|p|fid|a|u|oid dur r|pid|pid lp|pid e|u]; cbn [fm_execute] in H.
+  - unfold create_farm in H.
+    apply bind_ok in H. destruct H as [[] [_ H]].
+    apply bind_ok in H. destruct H as [ep [_ H]].
+    apply bind_ok in H. destruct H as [[expired live] [_ H]].
+    pose proof (close_farms_tables expired (w_fm w) []) as Hcf. cbv zeta in Hcf. fold (close_farms (w_fm w) expired) in Hcf.
+    destruct Hcf as (A1 & _ & _ & A4 & _).
+    destruct (close_farms (w_fm w) expired) as [s1 submsgs]. cbn [fst] in A1, A4.
+    inv_all; split; cbn [fm_set_farms fm_set_farm_counter fm_with fm_positions fm_pos_counter]; rewrite ?A1, ?A4; auto.
+  - unfold expand_farm in H. inv_all. split; auto.
+  - unfold close_farm in H.
+    apply bind_ok in H. destruct H as [[] [_ H]].
+    apply bind_ok in H. destruct H as [f [_ H]].
+    apply bind_ok in H. destruct H as [[] [_ H]]. inversion H; subst. split; cbn; auto.
+  - inv_all. split; auto.
+  - apply claim_tables in H. destruct H as (_ & Hp & _ & _ & Hc & _). split; rewrite ?Hp, ?Hc; auto.
+  - pose proof H as H0. apply create_position_spec in H. destruct H as (_ & lp & recv & identifier & _ & _ & _ & _ & Hid & Hfr & Hpos & _).
+    unfold create_position in H0.
+    apply bind_ok in H0. destruct H0 as [lp0 [_ H0]].
+    apply bind_ok in H0. destruct H0 as [[] [_ H0]].
+    apply bind_ok in H0. destruct H0 as [[] [_ H0]].
+    apply bind_ok in H0. destruct H0 as [recv0 [_ H0]].
+    apply bind_ok in H0. destruct H0 as [c [Hc H0]].
+    destruct (in_range U64_MAX (fm_pos_counter (w_fm w) + 1)); [|discriminate]. inversion Hc; subst c; clear Hc.
+    destruct oid as [x|].
+    + (* explicit identifier: counter unchanged, "u-" never collides with "p-" *)
+      cbn [bind] in H0.
+      apply bind_ok in H0. destruct H0 as [[] [_ H0]].
+      apply bind_ok in H0. destruct H0 as [[] [_ H0]].
+      apply bind_ok in H0. destruct H0 as [[] [_ H0]].
+      apply bind_ok in H0. destruct H0 as [s3 [Hs3 H0]]. inversion H0; subst s' msgs.
+      apply update_weights_tables in Hs3. destruct Hs3 as [(_ & _ & _ & T4 & _) _].
+      cbn [fm_set_positions fm_with fm_pos_counter] in T4.
+      split; [rewrite T4; exact Hc0|]. intros k Hk. rewrite T4 in Hk. rewrite Hpos.
+      rewrite sfind_sinsert_other; [apply Hfresh; exact Hk|]. cbn [pos_id]. subst identifier.
+      intros C. symmetry in C. revert C. apply u_p_disjoint.
+    + cbn [bind] in H0.
+      apply bind_ok in H0. destruct H0 as [[] [_ H0]].
+      apply bind_ok in H0. destruct H0 as [[] [_ H0]].
+      apply bind_ok in H0. destruct H0 as [[] [_ H0]].
+      apply bind_ok in H0. destruct H0 as [s3 [Hs3 H0]]. inversion H0; subst s' msgs.
+      apply update_weights_tables in Hs3. destruct Hs3 as [(_ & _ & _ & T4 & _) _].
+      cbn [fm_set_positions fm_set_pos_counter fm_with fm_pos_counter] in T4.
+      split; [rewrite T4; lia|]. intros k Hk. rewrite T4 in Hk. rewrite Hpos.
+      rewrite sfind_sinsert_other; [apply Hfresh; lia|]. cbn [pos_id]. subst identifier.
+      intros C. apply p_id_inj in C; lia.
+  - apply expand_position_spec in H. destruct H as (_ & p & lp & Hp & _ & _ & _ & _ & Hpos & _ & _ & _ & Hc).
+    split; [rewrite Hc; exact Hc0|]. intros k Hk. rewrite Hc in Hk. rewrite Hpos.
+    destruct (String.eqb ("p-" ++ string_of_Z k) (pos_id p)) eqn:E.
+    + apply String.eqb_eq in E. rewrite (sfind_key _ _ _ _ Hp) in E. subst pid. rewrite Hfresh in Hp by exact Hk. discriminate.
+    + apply String.eqb_neq in E. rewrite sfind_sinsert_other by (cbn; exact E). apply Hfresh. exact Hk.
+  - apply close_position_spec in H. destruct H as (_ & _ & _ & p & Hp & _ & _ & _ & _ & _ & Hc). cbv zeta in Hc.
+    assert (Hpk : forall k, fm_pos_counter (w_fm w) < k -> ("p-" ++ string_of_Z k)%string <> pos_id p).
+    { intros k Hk C. rewrite (sfind_key _ _ _ _ Hp) in C. subst pid. rewrite Hfresh in Hp by exact Hk. discriminate. }
+    destruct Hc as [(_ & Hpos & Hcnt) | (c & _ & _ & _ & Hpos & Hcnt)].
+    + split; [rewrite Hcnt; exact Hc0|]. intros k Hk. rewrite Hcnt in Hk. rewrite Hpos.
+      rewrite sfind_sinsert_other by (cbn; apply Hpk; exact Hk). apply Hfresh. exact Hk.
+    + split; [rewrite Hcnt; lia|]. intros k Hk. rewrite Hcnt in Hk. rewrite Hpos.
+      rewrite sfind_sinsert_other by (cbn; apply Hpk; lia).
+      rewrite sfind_sinsert_other; [apply Hfresh; lia|]. cbn [pos_id]. intros C. apply p_id_inj in C; lia.
+  - apply withdraw_position_spec in H. destruct H as (_ & p & Hp & _ & Hpos & _ & _ & _ & Hcnt & _).
+    split; [rewrite Hcnt; exact Hc0|]. intros k Hk. rewrite Hcnt in Hk. rewrite Hpos.
+    destruct (String.eqb ("p-" ++ string_of_Z k) pid) eqn:E.
+    + apply String.eqb_eq in E. subst pid. rewrite Hfresh in Hp by exact Hk. discriminate.
+    + apply String.eqb_neq in E. rewrite sfind_sremove_other by exact E. apply Hfresh. exact Hk.
+  - apply bind_ok in H. destruct H as [[] [_ H]]. unfold fm_update_config in H. inv_all; split; auto.
+Qed.
+
+(* ---------- C08: a normal withdrawal succeeds IFF owner, no funds, closed, unlock instant reached ---------- *)
+Lemma withdraw_normal_iff w sender funds id em p e :
+  sfind pos_id id (fm_positions (w_fm w)) = Some p -> pos_open p = false -> pos_exp p = Some e ->
+  em <> Some true ->
+  ((exists s' msgs, withdraw_position w sender funds id em = Ok (s', msgs)) <->
+   (funds = [] /\ pos_recv p = sender /\ e <= seconds (w_block w))).
+Proof.
+  intros Hp Hopen Hexp Hem. split.
+  - intros (s' & msgs & H). apply withdraw_position_spec in H.
+    destruct H as (Hf & p' & Hp' & Ho & _ & _ & _ & _ & _ & Hcase). rewrite Hp in Hp'. inversion Hp'; subst p'.
+    cbv zeta in Hcase. destruct Hcase as [(_ & (e' & He' & Hle) & _) | (C & _)]; [|congruence].
+    rewrite Hexp in He'. inversion He'; subst. auto.
+  - intros (-> & Ho & Hle). unfold withdraw_position. cbn [nonpayable bind]. rewrite Hp. cbn [of_option bind].
+    rewrite Ho, String.eqb_refl. cbn [ensure bind].
+    assert (Eb : (match em with Some true => true | _ => false end) = false) by (destruct em as [[|]|]; congruence).
+    rewrite Eb. cbn [andb]. rewrite Hexp. cbn [ensure bind]. unfold position_is_expired. rewrite Hexp.
+    replace (e <=? seconds (w_block w)) with true by lia. cbn [ensure bind].
+    rewrite Hopen. cbn [bind]. eauto.
+Qed.
